@@ -16,7 +16,7 @@ func init() {
 	register(&Property{
 		ID:      "C11",
 		NeedSSA: true,
-		Decided: "Structural necessary conditions: (marker) the types whose method set contains the chunk-transparency marker are exactly the frozen allow-list (file row groups, buffers, row-range views), no type that declares its own Rows() obtains the marker or the segment accessor by promotion from an embedded type, and both fast-path entries test the marker before they look at column chunks; wrappers that change row semantics (merge with duplicate dropping) return no segments; (strict) in the eligibility predicates every inequality between a property of the source chunk and the destination writer's configuration refuses immediately, with no further condition attached; (limits) both fast-path entries compare the row count with the row-group limit; (nocopy) eligibility consults the encryption state (C18.nocopy); (rows) a function that feeds values read with ReadValues to ColumnWriter.WriteRowValues, whose contract is whole rows, finds row boundaries through the repetition levels; (order) the packing path flushes buffered rows before it sizes bloom filters and flushes a pending batch before it would exceed the row-group limit. (source) outside the static call closure of OpenFile and of the lazy page-index loader, no function of the package writes through a field of the File* types that holds parsed format structures (footer, row groups, column chunks, page indexes): what is copied from an open file is copied, not adjusted in place. (cloneall) a function that returns a struct starting from a shallow copy of its parameter and re-assigns some slice or map field with a copy re-assigns every slice and map field.",
+		Decided: "Structural necessary conditions: (marker) the types whose method set contains the chunk-transparency marker are exactly the frozen allow-list (file row groups, buffers, row-range views), no type that declares its own Rows() obtains the marker or the segment accessor by promotion from an embedded type, and both fast-path entries test the marker before they look at column chunks; wrappers that change row semantics (merge with duplicate dropping) return no segments; (strict) in the eligibility predicates every inequality between a property of the source chunk and the destination writer's configuration refuses immediately, with no further condition attached; (limits) both fast-path entries compare the row count with the row-group limit; (nocopy) eligibility consults the encryption state (C18.nocopy); (rows) a function that feeds values read with ReadValues to ColumnWriter.WriteRowValues, whose contract is whole rows, finds row boundaries through the repetition levels; (order) the packing path flushes buffered rows before it sizes bloom filters and flushes a pending batch before it would exceed the row-group limit. (source) outside the static call closure of OpenFile and of the lazy page-index loader, no function of the package writes through a field of the File* types that holds parsed format structures (footer, row groups, column chunks, page indexes): what is copied from an open file is copied, not adjusted in place. (cloneall) a function that returns a struct starting from a shallow copy of its parameter and re-assigns some slice or map field with a copy re-assigns every slice and map field. (order, cont.) in Writer.WriteRowGroup every call that feeds the values of the row group to the column writers (the column-by-column re-encode, CopyRows) is dominated by the call that sizes the bloom filters for that row group.",
 		NotDecided: "byte or row equality of the outputs; that the predicate lists every writer option that matters (options read on the encode path but not by the predicate are listed in the evidence notes, not decided); page boundary arithmetic.",
 		Assumptions: []string{"method sets are computed by go/types, promotion included"},
 		Run:         runC11,
@@ -286,6 +286,30 @@ func runC11(c *Ctx) {
 			}
 		})
 		c.Check(rule, "packSegmentsByColumn flushes buffered rows before sizing bloom filters", wf.Pos(), flush != nil && conf != nil && dominates(flush, conf), "bloom filters are sized for the incoming segments while earlier rows are still buffered (see C07.strategies)")
+	}
+	if o := p.LookupFunc("(*Writer).WriteRowGroup"); c.Anchor(rule, "(*Writer).WriteRowGroup", o != nil) {
+		wf := p.SSAFunc(o)
+		var confs []ssa.Instruction
+		var feeds []ssa.CallInstruction
+		allCalls(wf, false, func(_ *ssa.Function, call ssa.CallInstruction) {
+			switch calleeName(call) {
+			case "(*ConcurrentRowGroupWriter).configureBloomFilters":
+				confs = append(confs, call.(ssa.Instruction))
+			case "(*Writer).writeRowGroupByColumn", "CopyRows":
+				feeds = append(feeds, call)
+			}
+		})
+		for _, f := range feeds {
+			ok := false
+			for _, cf := range confs {
+				if dominates(cf, f.(ssa.Instruction)) {
+					ok = true
+				}
+			}
+			c.Check(rule, "WriteRowGroup sizes the bloom filters before "+calleeName(f)+" writes the values", f.Pos(), ok,
+				"the values of the row group reach the column writers ("+calleeName(f)+") before configureBloomFilters has sized the filters: the pages flushed in between are never inserted (flushFilterPages takes an allocated filter as proof that earlier pages are in it), and the file carries a bloom filter that reports values of the column as absent")
+		}
+		c.Check(rule, "WriteRowGroup: the calls that feed values to the column writers were found", wf.Pos(), len(feeds) >= 2, "rule table out of date")
 	}
 	if o := p.LookupFunc("(*Writer).writeSegmentsPacked"); c.Anchor(rule, "(*Writer).writeSegmentsPacked", o != nil) {
 		wf := p.SSAFunc(o)
